@@ -21,6 +21,7 @@ TRUSTED = [
     "reference semantics coq/Model/Rel.v + Model/Value.v (hand-written specification of the documented meaning), shared with C01",
     "models coq/Model/Subst.v (user functions: parameters, named defaults, piped argument; mirrors resolver/functions.rs apply_args_to_closure and ast_expand.rs desugar_pipeline) and coq/Model/Rewrite.v (let-bound tables, module tree; mirrors semantic/module.rs insert/get): hand-written, tied to the implementation only through the differential oracle",
     "rewrite engine vplib/rel/rewrites.py (what counts as 'the same program, refactored'): its abstract rewrites are re-checked against the reference semantics on every run (engine stream), its function abstraction is inverted syntactically (beta-reduction gives the original expression back) on every site",
+    "Model/ModuleWalk.v on C10's Model/Scope.v (resolve_ident's walk over the enclosing modules; where a let-table / a function body is resolved): tied on every module-siblings variant (found module, call-site error class) by stream walk",
     "differential oracle: harness (prqlc::compile, rusqlite bundled SQLite) and the comparison in this file",
     "modelled, not verified: the resolver, lowering and the SQL back end ('both sides compile correctly') are validated per pair by execution, not proved",
 ]
